@@ -291,6 +291,11 @@ class Run:
         for f, e in self.regen.items():
             if e:
                 self.notes.append(f"translation failed: {f}: {e}")
+        if os.environ.get("VERIF_DEV_SKIP_PROOFS"):
+            # development aid only (never in a registered command): the proof files are being edited; the run is reported
+            # as broken so that it can never be mistaken for a pass
+            self.obl = {"obligations": [], "broken": ["<proofs skipped: VERIF_DEV_SKIP_PROOFS>"], "axioms": {}, "log": {}}
+            return self.obl
         self.obl = build_obligations(files)
         bad = hygiene()
         if bad:
